@@ -48,6 +48,9 @@ type pendingReq struct {
 	wantCount int
 	resumed   bool
 	panicked  any
+	haveReg   int
+	atStack   chan struct{} // closed when the request reached the capture of its dump
+	goStack   chan struct{} // closed to let it capture
 }
 
 // runPlan executes one plan inside a bubble and evaluates the clauses.
@@ -74,12 +77,46 @@ func runPlan(t *testing.T, p *Plan, c *checker) {
 	synctest.Test(t, func(t *testing.T) {
 		var reg []*entry
 		skipWait := false
+		// seam at the handler's runtime.Stack call (overlay build): the request
+		// that is marked parks there until the plan lets it capture its dump
+		var parkNext *pendingReq
+		webstack.VerifStackHook = func() {
+			if pr := parkNext; pr != nil {
+				parkNext = nil
+				close(pr.atStack)
+				<-pr.goStack
+			}
+		}
+		defer func() { webstack.VerifStackHook = nil }()
 		var reqs []*pendingReq
+		// settled: registered goroutines that are alive and parked in block()
+		settled := func() int {
+			n := 0
+			for _, e := range reg {
+				if e.alive && !e.fresh {
+					n++
+				}
+			}
+			return n
+		}
 		finishReq := func(pr *pendingReq) {
 			if pr.resumed {
 				return
 			}
 			pr.resumed = true
+			if pr.st.AtStack {
+				select {
+				case <-pr.atStack:
+					// it captures its dump NOW: that is the population it must account for
+					// (it is itself in it, parked in the hook)
+					pr.wantCount = len(headers(fullStack()))
+					pr.haveReg = settled()
+					c.probes["request-parked-before-capture"]++
+					close(pr.goStack)
+				default:
+					// rejected before it got to the capture
+				}
+			}
 			select {
 			case <-pr.w.parked:
 				close(pr.w.resume)
@@ -91,7 +128,7 @@ func runPlan(t *testing.T, p *Plan, c *checker) {
 				return
 			}
 			c.probes["request-parked-and-resumed"]++
-			c.checkResponse(pr.st.Method, pr.st.Query, pr.w.rec.Code, pr.w.rec.Header().Get("Content-Type"), pr.w.rec.Body.String(), queryValid(pr.st.Method, pr.st.Query), pr.wantCount, false)
+			c.checkResponseReg(pr.st.Method, pr.st.Query, pr.w.rec.Code, pr.w.rec.Header().Get("Content-Type"), pr.w.rec.Body.String(), queryValid(pr.st.Method, pr.st.Query), pr.wantCount, false, pr.haveReg)
 		}
 		for si, st := range p.Steps {
 			c.step = si
@@ -181,14 +218,17 @@ func runPlan(t *testing.T, p *Plan, c *checker) {
 					}()
 					webstack.SnapshotHandler(rec, req)
 				}()
-				c.checkResponse(st.Method, st.Query, rec.Code, rec.Header().Get("Content-Type"), rec.Body.String(), queryValid(st.Method, st.Query), pre, truncated)
+				c.checkResponseReg(st.Method, st.Query, rec.Code, rec.Header().Get("Content-Type"), rec.Body.String(), queryValid(st.Method, st.Query), pre, truncated, settled())
 			case "startreq":
 				synctest.Wait()
 				pre := len(headers(fullStack()))
-				pr := &pendingReq{st: st, done: make(chan struct{}), wantCount: pre + 1,
+				pr := &pendingReq{st: st, done: make(chan struct{}), wantCount: pre + 1, haveReg: settled(), atStack: make(chan struct{}), goStack: make(chan struct{}),
 					w: &parkWriter{rec: httptest.NewRecorder(), park: st.Park, parked: make(chan struct{}), resume: make(chan struct{})}}
 				reqs = append(reqs, pr)
 				req := httptest.NewRequest(st.Method, "/debug?"+st.Query, nil)
+				if st.AtStack {
+					parkNext = pr
+				}
 				go func() {
 					defer close(pr.done)
 					defer func() { pr.panicked = recover() }()
